@@ -3,7 +3,7 @@
 (* C09: the per-stream string table.  All sequences of up to MaxW writes,  *)
 (* each a deduplicated or a plain string over {"a", "b", "gone"}, placed   *)
 (* in a flat stream, a tuple, a vector, a headerless record, evolved       *)
-(* records without and with field names in the header (the name "gone"     *)
+(* records (added field declared last / first) without and with field names in the header (the name "gone"     *)
 (* collides with a value on purpose), and two such records in a vector.    *)
 (* One TLC state per (kind pattern, placement).                            *)
 (*                                                                         *)
@@ -22,7 +22,7 @@ B == <<98>>
 Gone == <<103, 111, 110, 101>>
 Strs == {A, B, Gone, <<>>}      \* the empty string takes an id like any other
 Kinds == {"dstr", "str"}
-Placements == {"stream", "tuple", "vec", "v0", "evoPlain", "evoGone", "evoTrans", "vec2"}
+Placements == {"stream", "tuple", "vec", "v0", "evoPlain", "evoFirst", "evoGone", "evoTrans", "vec2"}
 Patterns == UNION {[1..n -> Kinds] : n \in 1..MaxW}
 
 Init == ks \in Patterns /\ pl \in Placements /\ (pl = "vec" => \A i \in 1..Len(ks) : ks[i] = "dstr")
@@ -39,6 +39,8 @@ TypeOf(kinds, p) ==
     [] p = "vec" -> [k |-> "vec", e |-> K("dstr")]
     [] p = "v0" -> Rec(kinds, <<>>)
     [] p = "evoPlain" -> StructT([Fields(kinds) EXCEPT ![Len(kinds)].dv = <<3, 100>>], <<Stp("Added", FName(Len(kinds)), <<3, 100>>)>>)
+    \* the FIRST declared field is the added one: it is written (and read) first although its chunk comes last
+    [] p = "evoFirst" -> StructT([Fields(kinds) EXCEPT ![1].dv = <<3, 100>>], <<Stp("Added", FName(1), <<3, 100>>)>>)
     [] p = "evoGone" -> Rec(kinds, <<Stp("Removed", Gone, <<>>)>>)
     [] p = "evoTrans" -> StructT(Fields(kinds) \o <<Fld(Gone, STR, "plain", TRUE, <<3, 116>>)>>, <<Stp("MadeTransient", Gone, <<>>)>>)
     [] p = "vec2" -> [k |-> "vec", e |-> Rec(kinds, <<Stp("Removed", Gone, <<>>)>>)]
@@ -46,7 +48,7 @@ ValueOf(p, ss) ==   \* ss: the strings written, in order
   LET items == [i \in 1..Len(ss) |-> <<3>> \o ss[i]] IN
   CASE p = "tuple" -> <<10>> \o items
     [] p = "vec" -> <<8>> \o items
-    [] p \in {"v0", "evoPlain", "evoGone"} -> <<20>> \o items
+    [] p \in {"v0", "evoPlain", "evoFirst", "evoGone"} -> <<20>> \o items
     [] p = "evoTrans" -> <<20>> \o items \o <<<<3, 116>>>>
     [] p = "vec2" -> <<8, <<20>> \o items, <<20>> \o items>>
 Assignments == [1..Len(ks) -> Strs]
